@@ -57,6 +57,9 @@ fn range_of(cells: &JsonValue) -> Range {
 /// (xlsx decoding and f64 -> Decimal are not modelled)
 fn dump_range(rg: &Range) -> JsonValue {
     let mut rows = JsonValue::new_array();
+    if rg.get_size().1 == 0 {
+        return rows; // a range without cells: Range::rows cannot chunk by a width of zero
+    }
     for row in rg.rows() {
         let mut r = JsonValue::new_array();
         for c in row {
